@@ -19,9 +19,11 @@ HERE = os.path.dirname(os.path.abspath(__file__))
 
 REG_FULL = list(range(33))                      # R0..R30, REG_ZERO (31), REG_SP (32)
 REG_BND = [0, 1, 15, 16, 30, 31, 32]
+REG_QBND = [0, 30, 31, 32]                      # quick tier: the other register positions while one is complete
 REG_TINY = [0, 30, 31, 32]
 NEON_FULL = list(range(33))                     # 32 = non-encodable neighbour (NeonRegister::new must refuse)
 NEON_BND = [0, 1, 15, 16, 30, 31, 32]
+NEON_QBND = [0, 31, 32]
 NEON_TINY = [0, 31, 32]
 
 SLOT_TYPES = {"Register": 1, "NeonRegister": 1, "u32": 1, "i32": 1, "u64": 1, "i64": 1, "Cond": 1, "Extend": 1,
@@ -313,7 +315,7 @@ def generate(repo, build, parsed, joined):
 # ------------------------------------------------------------------------------------------------
 # plans
 
-def _slot_domains(e, enums):
+def _slot_domains(e, enums, tier=""):
     """per slot: (full, bnd, tiny, isreg)"""
     res = []
     for i, (_, ty, _) in enumerate(e["slots"]):
@@ -321,9 +323,9 @@ def _slot_domains(e, enums):
         if d is not None:
             res.append((d.full, d.bnd, d.bnd, False))
         elif ty == "Register":
-            res.append((REG_FULL, REG_BND, REG_TINY, True))
+            res.append((REG_FULL, REG_BND if tier != "quick" else REG_QBND, REG_TINY, True))
         elif ty == "NeonRegister":
-            res.append((NEON_FULL, NEON_BND, NEON_TINY, True))
+            res.append((NEON_FULL, NEON_BND if tier != "quick" else NEON_QBND, NEON_TINY, True))
         elif ty in ("Cond", "Extend", "Shift"):
             v = list(range(len(enums[ty])))
             res.append((v, v, v, False))
@@ -341,7 +343,7 @@ def _size(plan):
 
 def plans_for(e, enums, tier):
     """list of cartesian products (each a list of value lists, one per slot); the union is the declared space"""
-    sd = _slot_domains(e, enums)
+    sd = _slot_domains(e, enums, tier)
     if not sd:
         return [[]]
     full = [s[0] for s in sd]
@@ -356,7 +358,8 @@ def plans_for(e, enums, tier):
             if _size(q) <= cap:
                 p = q
         while _size(p) > cap:
-            cands = [i for i in range(len(p)) if len(p[i]) > 2 and (sd[i][3] or len(p[i]) > 6)]
+            # enum operands keep every variant
+            cands = [i for i in range(len(p)) if len(p[i]) > 2 and e["slots"][i][1] not in ("Cond", "Extend", "Shift")]
             if not cands:
                 break
             i = max(cands, key=lambda k: len(p[k]))
@@ -364,7 +367,7 @@ def plans_for(e, enums, tier):
             # keep both ends and the middle of the list (boundary sets are sorted)
             p[i] = sorted({keep[0], keep[len(keep) // 2], keep[-1]}) if len(keep) > 4 else keep[:2]
         return [p]
-    cap = 5_000_000 if tier == "thorough" else 60_000
+    cap = 600_000 if tier == "thorough" else 20_000
     if kind == 1:
         cap = 400_000 if tier == "thorough" else 30_000
     lab = [i for i, (_, ty, _) in enumerate(e["slots"]) if ty == "Label"]
@@ -378,6 +381,12 @@ def plans_for(e, enums, tier):
         far = [v for v in full[li] if abs(v) > (1 << 21) + 64]
         th = tier == "thorough"
         out = []
+        if not th:
+            # quick: the expensive distances only at the range ends; the 128 MB ones only for one method per
+            # implementation family (the thorough tier runs them for every method)
+            ess = set(sd[li][1])
+            mid2 = [v for v in mid2 if v in ess]
+            far = [v for v in far if v in ess] if e["name"] in ("b", "cbz", "cbnz_w", "tbz", "tbnz") else []
         for dvals, level in ((near, 0 if th else 1), (mid1, 1 if th else 2), (mid2, 2 if th else 3), (far, 3)):
             if not dvals:
                 continue
@@ -405,12 +414,27 @@ def plans_for(e, enums, tier):
                 p = _shrink(p, sd, cap)
             out.append(p)
         return out
-    # quick: one register position complete at a time, the others on the boundary set
+    # quick:
+    #  (1) one register position complete (all plain registers) at a time, the others on the plain boundary set
+    #      {0, 1, 15, 16, 30}, immediates on their boundary sets;
+    #  (2) zr/sp: every register position over {0, 30, REG_ZERO, REG_SP} (neon: {0, 31, 32}) -- all combinations of
+    #      special and plain registers -- with a few boundary immediates;
+    #  (3) all immediate / enum domains complete on the registers {0, 30}.
+    def plain(s, vals):
+        return [v for v in vals if v < (31 if s[0] is REG_FULL else 32)]
     for r in regs:
-        p = [(s[0] if i == r else s[1]) for i, s in enumerate(sd)]
+        p = [(plain(s, s[0]) if i == r else plain(s, REG_BND)) if s[3] else s[1] for i, s in enumerate(sd)]
         out.append(_shrink(p, sd, cap, keep=r))
-    # all non-register domains complete on a small register set
-    p = [(s[2] if s[3] else s[0]) for s in sd]
+    if regs:
+        p = [(REG_TINY if s[0] is REG_FULL else NEON_TINY) if s[3] else s[1] for s in sd]
+        while _size(p) > 6000:
+            cands = [i for i in range(len(p)) if not sd[i][3] and len(p[i]) > 3 and e["slots"][i][1] not in ("Cond", "Extend", "Shift")]
+            if not cands:
+                break
+            i = max(cands, key=lambda k: len(p[k]))
+            p[i] = sorted({p[i][0], p[i][len(p[i]) // 2], p[i][-1]})
+        out.append(p)
+    p = [([0, 30] if s[0] is REG_FULL else [0, 31]) if s[3] else s[0] for s in sd]
     out.append(_shrink(p, sd, cap * 4))
     return out
 
@@ -435,7 +459,7 @@ def write_plan(path, joined, enums, tier, llvm, mattr, scratch, threads, only=No
         if classify_refusals is None:
             classify_refusals = tier == "thorough"
         f.write("llvm %s\nmattr %s\nscratch %s\nthreads %d\nchunk %d\nroundtrip %d\nclassify_refusals %d\n" % (
-            llvm, mattr, scratch, threads, 32768 if tier == "quick" else 65536, 1 if roundtrip else 0,
+            llvm, mattr, scratch, threads, 32768 if tier == "quick" else 65536, 1 if roundtrip and tier != "quick" else 0,
             1 if classify_refusals else 0))
         f.write(extra)
         for e in joined["covered"]:
